@@ -69,6 +69,13 @@ def unknown_value(prog, st, t, tag, what):
         nf = len(prog.enum_fields.get(("Rank", k), [])) if hasattr(prog, "enum_fields") else 2
         fields = [SString([st.sym_char(tag + "_text")])] + ([st.sym_bv(tag + "_num", 8)] if (nf or (1 if k == "First" else 2)) > 1 else [])
         return Agg("adt:Rank", prog.enums["Rank"][k], fields)
+    bare = t.split("::")[-1]
+    if bare in prog.enums and bare not in ("Rank", "Suggestion") and not any((bare, v) in prog.enum_fields for v in prog.enums[bare]):
+        # a crate enum (taken to have unit variants only, as `PendingKar`): any of its variants
+        vs = sorted(prog.enums[bare].items(), key=lambda kv: kv[1])
+        n = z3.Int(tag + "_variant")
+        k = st.choose([n == i for i in range(len(vs) - 1)] + [z3.Not(z3.Or([n == i for i in range(len(vs) - 1)]))]) if len(vs) > 1 else 0
+        return Agg("adt:" + bare, vs[k][1], [])
     if t.startswith("HashMap<") and t.endswith(">"):
         # any content: every key asked for is present or absent (the environment's choice), its value an unconstrained value of the value type
         parts, depth, cur = [], 0, ""
